@@ -77,6 +77,11 @@ func (P *Program) CG() *CallGraph {
 						// dynamic call through a func value: try local closure flow
 						if t := localFuncValue(cc.Value); t != nil {
 							add(fn, in, t, "static")
+						} else if ts := globalTableFuncs(cc.Value); len(ts) > 0 {
+							// a dispatch table: package-level map/slice of functions filled once
+							for _, t := range ts {
+								add(fn, in, unwrap(t), "funcvalue")
+							}
 						} else {
 							g.Unresolved++
 						}
@@ -648,4 +653,75 @@ func fieldReadKey(v ssa.Value) (wireKey, bool) {
 		}
 	}
 	return wireKey{}, false
+}
+
+// globalTableFuncs: v is an element of a package-level map (or slice/array) that the package
+// init function fills with function values and nothing else writes: the functions.
+func globalTableFuncs(v ssa.Value) []*ssa.Function {
+	if e, ok := v.(*ssa.Extract); ok {
+		v = e.Tuple
+	}
+	var container ssa.Value
+	switch x := v.(type) {
+	case *ssa.Lookup:
+		container = x.X
+	case *ssa.Index:
+		container = x.X
+	case *ssa.UnOp:
+		if ia, ok := x.X.(*ssa.IndexAddr); ok && x.Op == token.MUL {
+			container = ia.X
+		}
+	}
+	ld, ok := container.(*ssa.UnOp)
+	if !ok || ld.Op != token.MUL {
+		return nil
+	}
+	g, ok := ld.X.(*ssa.Global)
+	if !ok || g.Pkg == nil {
+		return nil
+	}
+	// the value stored into the global in init, and the updates of that value
+	var out []*ssa.Function
+	var stored ssa.Value
+	for _, m := range g.Pkg.Members {
+		fn, ok := m.(*ssa.Function)
+		if !ok {
+			continue
+		}
+		for _, b := range fn.Blocks {
+			for _, in := range b.Instrs {
+				if st, ok := in.(*ssa.Store); ok && st.Addr == ssa.Value(g) {
+					if fn.Name() != "init" || stored != nil {
+						return nil
+					}
+					stored = st.Val
+				}
+			}
+		}
+	}
+	if stored == nil || stored.Referrers() == nil {
+		return nil
+	}
+	for _, r := range *stored.Referrers() {
+		switch x := r.(type) {
+		case *ssa.MapUpdate:
+			val := x.Value
+			for {
+				if ct, ok := val.(*ssa.ChangeType); ok {
+					val = ct.X
+					continue
+				}
+				break
+			}
+			f := localFuncValue(val)
+			if f == nil {
+				return nil
+			}
+			out = append(out, f)
+		case *ssa.Store:
+		default:
+			// any other use (besides being stored in the global) is fine for a make(map) value
+		}
+	}
+	return out
 }
